@@ -1,6 +1,6 @@
 (** Extraction of the executable models.  ExtrOcamlBasic only: bool, option, unit, list, prod,
     sumbool are mapped to OCaml's; N / positive / nat stay Coq datatypes.  No Extract Constant. *)
 From Coq Require Import Extraction ExtrOcamlBasic NArith DecimalN.
-From Astria Require Import Bundle.BundleModel Merkle.MerkleModel.
+From Astria Require Import Bundle.BundleModel Merkle.MerkleModel Quorum.QuorumModel Quorum.PipelineModel.
 Separate Extraction N.of_uint N.to_uint BundleModel.run BundleModel.init
-  MerkleModel.
+  MerkleModel QuorumModel PipelineModel.
